@@ -431,6 +431,13 @@ func (p *Parser) parseSelect() (*SelectStmt, error) {
 				return nil, NewSyntaxError(p.tok.Pos, "Expect `as` or `,` but got %s", p.tok.Data)
 			}
 		}
+		// One name for two different fields: a reference to it, and the
+		// field result cache which is keyed by name, could not tell them apart
+		for i, name := range fieldNames {
+			if name == fieldName && fields[i].String() != field.String() {
+				return nil, NewSyntaxError(field.GetPos(), "Duplicate field name %s", fieldName)
+			}
+		}
 		fields = append(fields, field)
 		fieldNames = append(fieldNames, fieldName)
 		fieldTypes = append(fieldTypes, field.ReturnType())
